@@ -883,7 +883,7 @@ theorem lastR_eq (l : List BoF) : lastR l = lastBoundRight (boundsOnly l) := by
         | nil => exact absurd ((countBounds_eq_zero_iff t).2 hb) h
         | cons b' t' => rfl
 
-theorem markLast_none {l : List BoF} (h : markLast l = none) : countBounds l = 0 := by
+theorem markLast_none_noBounds {l : List BoF} (h : markLast l = none) : countBounds l = 0 := by
   induction l with
   | nil => rfl
   | cons a t ih =>
@@ -913,7 +913,7 @@ theorem markLast_id {l m : List BoF} (h : markLast l = some m) (hl : LastOK l) :
       | none =>
         simp only [hm, Option.some.injEq] at h
         subst h
-        have : b.isLast = true := by rw [hl.1, markLast_none hm]; rfl
+        have : b.isLast = true := by rw [hl.1, markLast_none_noBounds hm]; rfl
         cases b
         simp only at this
         subst this
